@@ -11,7 +11,7 @@ from ..kinds import reach
 from ..model import AnalysisError, unparse
 from ..report import RuleResult
 from ..textile import FormatDoc
-from ._c08_flow import Locals, NdvHome, call_name, covers_more_than_nan, eq_other_side, fold, is_isnan_of, is_nan, masked_stores
+from ._c08_flow import Locals, NdvHome, call_name, covers_more_than_nan, eq_other_side, fold, is_isnan_of, is_nan, masked_stores, text_kind_truth
 
 
 def f32(x: float) -> float:
@@ -33,7 +33,7 @@ def _is_self_attr(fn, expr, attr) -> bool:
     return isinstance(expr, ast.Attribute) and expr.attr == attr and isinstance(expr.value, ast.Name) and expr.value.id == (fn.self_name or "self")
 
 
-def _literals_in(p, mod, fn_node, expr):
+def _literals_in(p, mod, fn_node, expr, any_expr=False):
     """`expr` with names bound once at module level to a literal (number, string, or a set / list / tuple of them) replaced by the
     literal — whatever the constant is called (the normalised view already does this for most names)."""
     bound = {x.id for x in ast.walk(fn_node) if isinstance(x, ast.Name) and isinstance(x.ctx, ast.Store)} | {a.arg for a in ast.walk(fn_node) if isinstance(a, ast.arg)}
@@ -47,8 +47,8 @@ def _literals_in(p, mod, fn_node, expr):
         def visit_Name(self, n):
             if isinstance(n.ctx, ast.Load) and n.id not in bound:
                 r = p.resolve_name(mod, n.id)
-                if r and r[0] == "assign" and lit(r[1][1]):
-                    return ast.copy_location(copy.deepcopy(r[1][1]), n)
+                if r and r[0] == "assign" and (lit(r[1][1]) or (any_expr and not any(isinstance(x, ast.Name) and x.id == n.id for x in ast.walk(r[1][1])))):
+                    return ast.copy_location(copy.deepcopy(r[1][1]), n)  # any_expr: a hoisted bound such as `MAX_KEY = np.iinfo(np.uint32).max`
             return n
 
     return R().visit(copy.deepcopy(expr))
@@ -503,8 +503,9 @@ def _assumed(home, mod, L, names, test):
     return _three(L, test, leaf)
 
 
-def _reach_assuming(g, value, avoid=()):
-    """CFG nodes reachable from the entry when a test whose condition has a known value (True / False) only continues on that branch."""
+def _reach_assuming(g, value, avoid=(), definite=False):
+    """CFG nodes reachable from the entry when a test whose condition has a known value (True / False) only continues on that branch.
+    definite: only paths that are certainly taken — exceptional edges are not followed and a test of unknown value ends the path."""
     seen, todo = set(), [g.entry]
     while todo:
         n = todo.pop()
@@ -512,8 +513,10 @@ def _reach_assuming(g, value, avoid=()):
             continue
         seen.add(n)
         v = value(n.ast) if n.kind == "test" else None
+        if definite and n.kind == "test" and v is None:
+            continue
         for m, lab in n.succ:
-            if (v is True and lab == "false") or (v is False and lab == "true"):
+            if (v is True and lab == "false") or (v is False and lab == "true") or (definite and lab in ("exc", "raise")):
                 continue
             todo.append(m)
     return seen
@@ -752,7 +755,7 @@ def rule_narrow(ctx) -> RuleResult:
         g = CFG(v.node)
         for c, tgt in _casts(v.node, L):
             cnodes = _cfg_nodes_of(g, c)
-            tests = [_literals_in(p, fn.module, v.node, m) for t in _deciding_guards(g, cnodes) for m in _test_meanings(ctx, v, L, t.ast)]
+            tests = [_literals_in(p, fn.module, v.node, m, any_expr=True) for t in _deciding_guards(g, cnodes) for m in _test_meanings(ctx, v, L, t.ast)]
             gtxt = " ; ".join(unparse(t) for t in tests)
             need = []
             if "float" in tgt:
@@ -769,6 +772,164 @@ def rule_narrow(ctx) -> RuleResult:
                 if not ok:
                     res.find(fn.cls.name, "format_type", f"astype({tgt}) without a {label} guard", f"{fn.module.relpath}:{c.lineno}",
                              f"values outside what {tgt} represents ({label}) are silently altered by the cast instead of being rejected")
+        # the stored type is fixed: no normal path hands the values back without one of the casts (the no-data code, the range tests and
+        # the reader's dtype list all assume it)
+        casts = list(_casts(v.node, L))
+        if casts:
+            cast_nodes = {n for c, _t in casts for n in _cfg_nodes_of(g, c)}
+            seen_nodes = _reach_assuming(g, lambda t: None, avoid=cast_nodes)
+            loose = [n for n in seen_nodes if n.kind == "return" and n.ast is not None and not (isinstance(n.ast, ast.Constant) and n.ast.value is None)]
+            fall = g.exit in seen_nodes and any(m in seen_nodes and m.kind not in ("return", "withexit") for m, _l in g.exit.pred)
+            ok = not loose and not fall
+            res.inst(f"{K.name}.format_type: every return passes a cast ({', '.join(t for _c, t in casts)})", nontrivial=True, ok=ok)
+            if not ok:
+                at = loose[0].lineno if loose else fn.node.lineno
+                res.find(fn.cls.name, "format_type", "a path returns the values without the cast", f"{fn.module.relpath}:{at}",
+                         "the in-memory dtype follows the caller's array instead of the stored type: the no-data code is substituted (and compared on "
+                         "read) in a dtype that cannot hold it, and the returned array is the caller's own")
+    # the keys of a value map are stored in an unsigned 32-bit field: the validation of the keys must reject what does not fit
+    wv = p.cls("H5Writer").methods.get("write_value_map")
+    rvm = p.cls("ReferenceValueMap")
+    if wv is not None and "map" in rvm.props and rvm.props["map"].setter is not None:
+        wvv = ctx.view(wv)
+        WL = Locals(wvv.node)
+        narrow_keys = None
+        for c in ast.walk(wvv.node):
+            if isinstance(c, ast.Call) and call_name(c) in ("array", "asarray", "fromiter", "astype", "dtype"):
+                dt = next((k.value for k in c.keywords if k.arg == "dtype"), None)
+                d = _literals_in(p, wv.module, wvv.node, WL.expand(dt)) if dt is not None else None
+                if d is not None and any((isinstance(x, ast.Constant) and isinstance(x.value, str) and x.value.lstrip("<>=|") in ("u4", "uint32"))
+                                         or (isinstance(x, ast.Attribute) and x.attr == "uint32") for x in ast.walk(d)):
+                    narrow_keys = c
+        if narrow_keys is not None:
+            st = rvm.props["map"].setter
+            frames = [ctx.view(st)] + [ctx.view(m) for nm, m in rvm.methods.items() if nm in ("_validate_key_value", "__setitem__")]
+            tests = [_literals_in(p, fr.module, fr.node, t, any_expr=True) for fr in frames for tests_ in _raise_guards(ctx, fr) for t in tests_]
+            gtxt = " ; ".join(unparse(t) for t in tests)
+            ok = any(tok in gtxt for tok in ("iinfo", "4294967295", "2 ** 32", "2**32", "0xffffffff", "0xFFFFFFFF", "uint32"))
+            res.inst(f"ReferenceValueMap: keys stored as unsigned 32-bit integers are range-checked: {ok}", nontrivial=True, ok=ok)
+            if not ok:
+                res.find("ReferenceValueMap", "map", "value-map keys stored as <u4 without an unsigned 32-bit range guard", st.where,
+                         "a key above 4294967295 passes the validation and wraps when the value map is written (2**32 + 2 is stored as key 2): "
+                         "the label is read back under another key")
+    return res
+
+
+_STRINGIFIERS = ("str", "repr", "ascii", "format")
+
+
+def _stringifies(e) -> bool:
+    return isinstance(e, ast.JoinedStr) or (isinstance(e, ast.Call) and getattr(e.func, "id", None) in _STRINGIFIERS)
+
+
+def _total_stringifier(p, fn, L, expr) -> bool:
+    """The `default=` handler turns whatever it is given into a string and never refuses: `str` / `repr`, a lambda or a package function
+    that only returns `str(..)` / an f-string and has no `raise`.  (A handler that converts some types and raises for the rest, or hands
+    the object back, still rejects what JSON cannot represent.)"""
+    e = L.expand(expr)
+    if isinstance(e, ast.Name) and e.id in _STRINGIFIERS and p.resolve_name(fn.module, e.id) is None:
+        return True
+    if isinstance(e, ast.Lambda):
+        return _stringifies(e.body)
+    f = None
+    if isinstance(e, ast.Name):
+        r = p.resolve_name(fn.module, e.id)
+        f = r[1] if r and r[0] == "func" else None
+    elif isinstance(e, ast.Attribute):
+        r = p.resolve_expr(fn.module, e)
+        f = r[1] if r and r[0] == "func" else None
+        if f is None and isinstance(e.value, ast.Name) and fn.cls is not None and e.value.id in ("self", "cls", fn.self_name):
+            m = fn.cls.lookup(e.attr)
+            f = m[2] if m and m[1] == "method" else None
+    if f is not None:
+        rets = [r for r in ast.walk(f.node) if isinstance(r, ast.Return)]
+        return bool(rets) and all(r.value is not None and _stringifies(r.value) for r in rets) and not any(isinstance(x, ast.Raise) for x in ast.walk(f.node))
+    return False
+
+
+def rule_json(ctx) -> RuleResult:
+    res = RuleResult(
+        "C08.JSON",
+        "C08",
+        "every json.dumps / json.dump of user values is strict: no `default=` handler that turns any unsupported object into a string, no "
+        "`skipkeys=True` — a value JSON cannot represent is rejected (TypeError), not silently stored as something else",
+        floor=2,
+    )
+    p = ctx.p
+    for fn in p.all_functions():
+        L = None
+        for c in ast.walk(fn.node):
+            if not (isinstance(c, ast.Call) and call_name(c) in ("dumps", "dump")):
+                continue
+            base = c.func.value if isinstance(c.func, ast.Attribute) else None
+            r = p.resolve_name(fn.module, base.id) if isinstance(base, ast.Name) else (p.resolve_name(fn.module, c.func.id) if isinstance(c.func, ast.Name) else None)
+            if not (r and r[0] == "external" and r[1].split(".")[0] == "json"):
+                continue
+            L = L or Locals(fn.node)
+            kws = {k.arg: k.value for k in c.keywords if k.arg}
+            lossy = []
+            if "default" in kws and _total_stringifier(p, fn, L, kws["default"]):
+                lossy.append(("default= stringifies every unsupported value", "a value of an unsupported type (NumPy scalar or array, datetime, Path, set, ...) is stored as its str() "
+                              "and read back as a string instead of being rejected"))
+            sk = L.expand(kws["skipkeys"]) if "skipkeys" in kws else None
+            if isinstance(sk, ast.Constant) and sk.value is True:
+                lossy.append(("skipkeys=True drops entries", "entries whose key is not a basic type are dropped silently instead of being rejected"))
+            res.inst(f"{fn.qualname}:{c.lineno} json.{call_name(c)} strict: {not lossy}", ok=not lossy)
+            for construct, msg in lossy:
+                res.find(fn.cls.name if fn.cls else fn.module.short, fn.prop or fn.name, f"json.{call_name(c)}: {construct}", f"{fn.module.relpath}:{c.lineno}", msg)
+    return res
+
+
+def _decoding_ref(ctx, fr, ref, _depth=0) -> bool:
+    """The name / attribute denotes something that turns bytes into str: `.decode` / `np.char.decode` / `bytes.decode`, the library's
+    `as_str_if_utf8_bytes`, or a package function that uses one of these — whether it is called or handed to `map(..)` / `np.vectorize(..)`."""
+    nm = ref.attr if isinstance(ref, ast.Attribute) else getattr(ref, "id", None)
+    if nm in ("decode", "as_str_if_utf8_bytes"):
+        return True
+    if _depth >= 2 or nm is None:
+        return False
+    f = None
+    if isinstance(ref, ast.Name):
+        r = ctx.p.resolve_name(fr.module, nm)
+        f = r[1] if r and r[0] == "func" else None
+    elif isinstance(ref, ast.Attribute) and isinstance(ref.value, ast.Name):
+        owner = fr.cls if fr.cls is not None and ref.value.id in ("self", "cls", fr.self_name) else None
+        if owner is None:
+            r = ctx.p.resolve_name(fr.module, ref.value.id)
+            owner = r[1] if r and r[0] == "class" else None
+        m = owner.lookup(nm) if owner is not None else None
+        f = m[2] if m and m[1] == "method" else None
+    if f is None or f.node is fr.node:
+        return False
+    return any(isinstance(x, (ast.Name, ast.Attribute)) and _decoding_ref(ctx, f, x, _depth + 1) for x in ast.walk(f.node))
+
+
+def rule_decode(ctx) -> RuleResult:
+    res = RuleResult(
+        "C08.DECODE",
+        "C08",
+        "text comes back from H5Reader.fetch_values as str whichever way the byte strings are stored: for a variable-length dataset (object "
+        "array of bytes) and for a fixed-length one (NumPy S<n> array) alike, no path that is certainly taken returns the array without the "
+        "bytes -> str decoding (tests on dtype / element type / emptiness are decided per kind; a path through an undecided test is not judged)",
+        floor=2,
+    )
+    fn = ctx.view("H5Reader.fetch_values")
+    L = Locals(fn.node)
+    g = CFG(fn.node)
+    returned = {x.id for r in ast.walk(fn.node) if isinstance(r, ast.Return) and r.value is not None for x in ast.walk(r.value) if isinstance(x, ast.Name)}
+    names = set().union(*[L.alias_class(nm) for nm in returned]) if returned else set()
+    decoders = {n for n in g.nodes for x in ([n.ast] if n.ast is not None and not isinstance(n.ast, list) and n.kind not in ("with", "except", "def") else [])
+                for c in ast.walk(x) if isinstance(c, (ast.Name, ast.Attribute)) and isinstance(getattr(c, "ctx", None), ast.Load) and _decoding_ref(ctx, fn, c)}
+    if not decoders:
+        raise AnalysisError("H5Reader.fetch_values: no bytes -> str decoding found")
+    for kind, label in (("o", "variable-length (object array of bytes)"), ("s", "fixed-length (S<n> array)")):
+        seen = _reach_assuming(g, lambda t, kind=kind: _three(L, t, lambda e: text_kind_truth(e, names, kind)), avoid=decoders, definite=True)
+        raw = [n for n in seen if n.kind == "return" and n.ast is not None and any(isinstance(x, ast.Name) and x.id in names for x in ast.walk(n.ast))]
+        res.inst(f"fetch_values: {label} text is decoded on every path certainly taken", nontrivial=True, ok=not raw)
+        if raw:
+            res.find("H5Reader", "fetch_values", f"{label} byte strings are returned without decoding", f"{fn.module.relpath}:{min(n.lineno for n in raw)}",
+                     "text stored as byte strings of this kind comes back as raw bytes (non-ASCII characters as UTF-8 byte sequences, a single entry as a "
+                     "length-1 array) instead of the str that was written")
     return res
 
 
@@ -819,4 +980,4 @@ def rule_rewrite(ctx) -> RuleResult:
     return res
 
 
-RULES = [rule_ndv, rule_ndvmap, rule_codec, rule_narrow, rule_rewrite]
+RULES = [rule_ndv, rule_ndvmap, rule_codec, rule_narrow, rule_rewrite, rule_json, rule_decode]
